@@ -4,7 +4,7 @@
    and the palette size bounds 1 <= |palette| <= max(k, 8). *)
 From Coq Require Import List NArith ZArith Bool Lia Arith.
 From Coq Require Import ZifyBool ZifyNat ZifyN.
-From SNT Require Import Base.Outcome Image.KDTree Image.Octree.
+From SNT Require Import Base.Outcome Image.KDTree Image.Octree Image.OctreePath.
 Import ListNotations.
 
 Arguments N.add : simpl never.
@@ -310,22 +310,34 @@ Qed.
 Lemma node_measure_tree i rm ch : node_measure (Tree i rm ch) = (2 + lsum node_measure ch)%nat.
 Proof. reflexivity. Qed.
 
+Lemma map_at_o_ok f l k y :
+  (k < length l)%nat -> f (nth k l Empty) = Ok y -> map_at_o f l k = Ok (set_at k y l).
+Proof.
+  revert k. induction l as [|x r IH]; intros [|k] Hk Hf; cbn [length] in Hk; try lia.
+  - cbn [map_at_o nth] in *. rewrite Hf. reflexivity.
+  - cbn [map_at_o nth] in *. rewrite (IH k ltac:(lia) Hf). reflexivity.
+Qed.
+
+Lemma set_at_nth_same k v l : (k < length l)%nat -> nth k (set_at k v l) Empty = v.
+Proof. intros H. unfold set_at. now rewrite map_at_nth_same. Qed.
+
 Lemma prune_rec_tree_eq i rm ch :
   prune_rec (Tree i rm ch) =
   match argmin ch with
-  | None => Leaf rm
+  | None => Ok (Leaf rm)
   | Some k =>
       match nth k ch Empty with
-      | Empty => Tree i rm ch
+      | Empty => Panic 1373
       | Leaf l =>
-          if all_empty (set_at k Empty ch) then Leaf (leaf_join rm l)
-          else Tree i (leaf_join rm l) (set_at k Empty ch)
+          if all_empty (set_at k Empty ch) then Ok (Leaf (leaf_join rm l))
+          else Ok (Tree i (leaf_join rm l) (set_at k Empty ch))
       | Tree _ _ _ =>
-          match nth k (map_at prune_rec ch k) Empty with
+          let* ch1 := map_at_o prune_rec ch k in
+          match nth k ch1 Empty with
           | Leaf l =>
-              if all_empty (set_at k Empty ch) then Leaf (leaf_join rm l)
-              else Tree (from_slice (map_at prune_rec ch k)) rm (map_at prune_rec ch k)
-          | _ => Tree (from_slice (map_at prune_rec ch k)) rm (map_at prune_rec ch k)
+              if all_empty (set_at k Empty ch) then Ok (Leaf (leaf_join rm l))
+              else Ok (Tree (from_slice ch1) rm ch1)
+          | _ => Ok (Tree (from_slice ch1) rm ch1)
           end
       end
   end.
@@ -333,10 +345,12 @@ Proof. reflexivity. Qed.
 
 Definition is_tree (n : node) : bool := match n with Tree _ _ _ => true | _ => false end.
 
+(* pruning a well-formed subtree never reaches the unreachable!() arm, keeps it well formed
+   and non-empty, and strictly decreases the measure *)
 Lemma prune_rec_wf n : forall h,
   wf_node h n -> is_tree n = true ->
-  wf_node h (prune_rec n) /\ prune_rec n <> Empty /\
-  (node_measure (prune_rec n) < node_measure n)%nat.
+  exists n', prune_rec n = Ok n' /\ wf_node h n' /\ n' <> Empty /\
+             (node_measure n' < node_measure n)%nat.
 Proof.
   induction n as [| l | i rm ch IH] using node_ind'; intros h Hw Ht; try discriminate. clear Ht.
   inversion Hw as [| |h' ? ? ? Hlen Hall Hpos Hb Hm]; subst.
@@ -350,7 +364,7 @@ Proof.
     pose proof (map_at_sum node_measure (fun _ => Empty) ch k Hk) as Sm.
     rewrite Ec in Sl, Sm. cbn [nleaves node_measure] in Sl, Sm.
     fold (set_at k Empty ch) in Sl, Sm.
-    destruct (all_empty (set_at k Empty ch)) eqn:Ea.
+    destruct (all_empty (set_at k Empty ch)) eqn:Ea; eexists; (split; [reflexivity|]).
     + split; [constructor; cbn; lia|]. split; [discriminate|]. cbn [node_measure]. lia.
     + assert (Hall' : Forall (wf_node h') (set_at k Empty ch)) by (apply map_at_Forall; [exact Hall|constructor]).
       split; [|split; [discriminate|rewrite node_measure_tree; lia]].
@@ -360,25 +374,26 @@ Proof.
       * lia.
   - (* a subtree: prune it, collapse if it became the only (leaf) child *)
     assert (Hin : In (Tree ci crm cch) ch) by (rewrite <- Ec; apply nth_In, Hk).
-    rewrite Forall_forall in IH. destruct (IH _ Hin h' Hwc eq_refl) as (Hw' & Hne' & Hlt).
-    set (ch1 := map_at prune_rec ch k).
-    assert (Hn1 : nth k ch1 Empty = prune_rec (Tree ci crm cch))
-      by (unfold ch1; rewrite map_at_nth_same by exact Hk; now rewrite Ec).
-    assert (Hall1 : Forall (wf_node h') ch1)
-      by (apply map_at_Forall; [exact Hall|rewrite Ec; exact Hw']).
-    assert (Hlen1 : length ch1 = 8%nat) by (unfold ch1; now rewrite map_at_length).
+    rewrite Forall_forall in IH. destruct (IH _ Hin h' Hwc eq_refl) as (c' & Hpc & Hw' & Hne' & Hlt).
+    rewrite (map_at_o_ok prune_rec ch k c' Hk) by (rewrite Ec; exact Hpc). cbn [bind].
+    set (ch1 := set_at k c' ch).
+    assert (Hn1 : nth k ch1 Empty = c') by (unfold ch1; apply set_at_nth_same, Hk).
+    assert (Hall1 : Forall (wf_node h') ch1) by (apply map_at_Forall; [exact Hall|exact Hw']).
+    assert (Hlen1 : length ch1 = 8%nat) by (unfold ch1; now rewrite set_at_length).
     assert (Hpos1 : (1 <= lsum nleaves ch1)%nat).
     { apply (nonempty_lsum_pos h'); [exact Hall1|]. exists (nth k ch1 Empty). split.
       - apply nth_In. lia.
       - rewrite Hn1. exact Hne'. }
-    pose proof (map_at_sum node_measure prune_rec ch k Hk) as Sm. fold ch1 in Sm. rewrite Ec in Sm.
-    assert (Hgen : wf_node (S h') (Tree (from_slice ch1) rm ch1) /\
-                   Tree (from_slice ch1) rm ch1 <> Empty /\
-                   (node_measure (Tree (from_slice ch1) rm ch1) < 2 + lsum node_measure ch)%nat).
-    { split; [apply mk_tree_wf; assumption|]. split; [discriminate|]. rewrite node_measure_tree. lia. }
-    rewrite Hn1. destruct (prune_rec (Tree ci crm cch)) as [| l' | ? ? ?] eqn:Ep; try exact Hgen.
+    pose proof (map_at_sum node_measure (fun _ => c') ch k Hk) as Sm. fold (set_at k c' ch) in Sm. fold ch1 in Sm.
+    rewrite Ec in Sm. cbv beta in Sm.
+    assert (Hgen : exists n', Ok (Tree (from_slice ch1) rm ch1) = Ok n' /\ wf_node (S h') n' /\ n' <> Empty /\
+                   (node_measure n' < 2 + lsum node_measure ch)%nat).
+    { eexists. split; [reflexivity|]. split; [apply mk_tree_wf; assumption|]. split; [discriminate|].
+      rewrite node_measure_tree. lia. }
+    rewrite Hn1. destruct c' as [| l' | ? ? ?]; try exact Hgen.
     destruct (all_empty (set_at k Empty ch)); [|exact Hgen].
-    inversion Hw'; subst. split; [constructor; cbn; lia|]. split; [discriminate|]. cbn [node_measure]. lia.
+    inversion Hw'; subst. eexists. split; [reflexivity|]. split; [constructor; cbn; lia|].
+    split; [discriminate|]. cbn [node_measure]. lia.
 Qed.
 
 (* ---------- the root ---------- *)
@@ -431,8 +446,9 @@ Proof. reflexivity. Qed.
 
 Lemma oc_prune_wf t :
   wf_oc t -> (exists c, In c (o_children t) /\ is_tree c = true) ->
-  wf_oc (oc_prune t) /\ (oc_measure (oc_prune t) < oc_measure t)%nat /\
-  (1 <= lsum nleaves (o_children (oc_prune t)))%nat.
+  exists t', oc_prune t = Ok t' /\
+  wf_oc t' /\ (oc_measure t' < oc_measure t)%nat /\
+  (1 <= lsum nleaves (o_children t'))%nat.
 Proof.
   intros [Hlen Hall Hb Hs] (ct & Hct & Htree).
   assert (Hpos : (1 <= lsum nleaves (o_children t))%nat).
@@ -446,7 +462,8 @@ Proof.
     pose proof (map_at_sum node_measure (fun _ => Empty) (o_children t) k Hk) as Sm.
     pose proof (map_at_nsum uval (fun _ => Empty) (o_children t) k Hk) as Su.
     rewrite Ec in Sl, Sm, Su. cbn [nleaves node_measure uval] in Sl, Sm, Su.
-    fold (set_at k Empty (o_children t)) in Sl, Sm, Su. cbn [o_children o_info].
+    fold (set_at k Empty (o_children t)) in Sl, Sm, Su.
+    eexists. split; [reflexivity|]. rewrite oc_measure_eq. cbn [o_children o_info].
     assert (Hall' : Forall (wf_node 7) (set_at k Empty (o_children t)))
       by (apply map_at_Forall; [exact Hall|constructor]).
     split; [constructor; cbn [o_children o_info]; try assumption; try lia; now rewrite set_at_length|].
@@ -458,19 +475,20 @@ Proof.
     { rewrite <- Hjn. rewrite <- (map_at_nth_other (fun _ => Empty) _ k j H).
       apply nth_In. unfold set_at in *. rewrite map_at_length. exact Hj. }
     apply (nonempty_lsum_pos 7); [exact Hall'|]. exists ct. split; [assumption|destruct ct; discriminate].
-  - destruct (prune_rec_wf _ 7 Hwc eq_refl) as (Hw' & Hne' & Hlt).
-    set (ch1 := map_at prune_rec (o_children t) k).
-    assert (Hn1 : nth k ch1 Empty = prune_rec (Tree ci crm cch))
-      by (unfold ch1; rewrite map_at_nth_same by exact Hk; now rewrite Ec).
-    assert (Hall1 : Forall (wf_node 7) ch1)
-      by (apply map_at_Forall; [exact Hall|rewrite Ec; exact Hw']).
-    assert (Hlen1 : length ch1 = 8%nat) by (unfold ch1; now rewrite map_at_length).
+  - destruct (prune_rec_wf _ 7 Hwc eq_refl) as (c' & Hpc & Hw' & Hne' & Hlt).
+    rewrite (map_at_o_ok prune_rec (o_children t) k c' Hk) by (rewrite Ec; exact Hpc). cbn [bind].
+    eexists. split; [reflexivity|]. rewrite oc_measure_eq. cbn [o_children o_info].
+    set (ch1 := set_at k c' (o_children t)).
+    assert (Hn1 : nth k ch1 Empty = c') by (unfold ch1; apply set_at_nth_same, Hk).
+    assert (Hall1 : Forall (wf_node 7) ch1) by (apply map_at_Forall; [exact Hall|exact Hw']).
+    assert (Hlen1 : length ch1 = 8%nat) by (unfold ch1; now rewrite set_at_length).
     assert (Hpos1 : (1 <= lsum nleaves ch1)%nat).
     { apply (nonempty_lsum_pos 7); [exact Hall1|]. exists (nth k ch1 Empty). split.
       - apply nth_In. lia.
       - rewrite Hn1. exact Hne'. }
-    pose proof (map_at_sum node_measure prune_rec (o_children t) k Hk) as Sm. fold ch1 in Sm. rewrite Ec in Sm.
-    cbn [o_children o_info]. split; [|split; [lia|exact Hpos1]].
+    pose proof (map_at_sum node_measure (fun _ => c') (o_children t) k Hk) as Sm.
+    fold (set_at k c' (o_children t)) in Sm. fold ch1 in Sm. rewrite Ec in Sm. cbv beta in Sm.
+    split; [|split; [lia|exact Hpos1]].
     constructor; cbn [o_children o_info]; try assumption.
     + rewrite from_slice_leaves. apply (nsum_bound 7), Hall1.
     + apply from_slice_slots.
@@ -493,8 +511,8 @@ Proof.
   - cbn [prune_until_fuel]. destruct (i_leaves (o_info t) <=? N.max k 8)%N eqn:E.
     + exists t. split; [reflexivity|]. split; [exact Hw|]. split; [lia|]. intros H; exact H.
     + destruct (has_tree_child t Hw) as (c & Hc & Ht); [lia|].
-      destruct (oc_prune_wf t Hw) as (Hw' & Hlt & Hpos'); [eauto|].
-      destruct (IH k (oc_prune t) Hw') as (t' & Ht' & Hwt' & Hbt' & Hp'); [lia|].
+      destruct (oc_prune_wf t Hw) as (t1 & -> & Hw' & Hlt & Hpos'); [eauto|]. cbn [bind].
+      destruct (IH k t1 Hw') as (t' & Ht' & Hwt' & Hbt' & Hp'); [lia|].
       exists t'. split; [exact Ht'|]. split; [exact Hwt'|]. split; [exact Hbt'|]. intros _. apply Hp', Hpos'.
 Qed.
 
@@ -576,7 +594,7 @@ Lemma oc_insert_wf t c :
              (1 <= lsum nleaves (o_children t'))%nat /\
              (lsum nleaves (o_children t) <= lsum nleaves (o_children t'))%nat.
 Proof.
-  intros [Hlen Hall Hb Hs] Hc. unfold oc_insert, path_of.
+  intros [Hlen Hall Hb Hs] Hc. unfold oc_insert. rewrite (path_packed_eq c Hc). unfold path_of.
   destruct (path_n_ok 8 c Hc) as [Hl Hf].
   destruct (path_n 8 c) as [|k rest]; [discriminate|].
   inversion Hf as [|? ? Hk Hrest]; subst. cbn [length] in Hl. injection Hl as Hl.
